@@ -45,6 +45,20 @@ M = [
     ("C07", "wchar0-terminator", "dissect/cstruct/types/wchar.py", 'if point == b"\\x00\\x00":', 'if point[:1] == b"\\x00":'),
     ("C07", "int-read0-keeps-zero", "dissect/cstruct/types/int.py", "            if (value := cls._read(stream, context)) == 0:\n                break\n", "            if (value := cls._read(stream, context)) == 0:\n                result.append(value)\n                break\n"),
     ("C07", "enum-write0-no-term", "dissect/cstruct/types/enum.py", "return cls._write_array(stream, [*data, cls.type.__default__()])", "return cls._write_array(stream, [*data])"),
+    ("C08", "int-no-length-check", "dissect/cstruct/types/int.py", "        if len(data) != cls.size:\n            raise EOFError", "        if False:\n            raise EOFError"),
+    ("C08", "packed-zero-fill", "dissect/cstruct/types/packed.py", "        fmt = _struct(cls.cs.endian, f\"{count}{cls.packchar}\")\n\n        if len(data) != length:\n            raise EOFError(f\"Read {len(data)} bytes, but expected {length}\")", "        fmt = _struct(cls.cs.endian, f\"{count}{cls.packchar}\")\n\n        if len(data) != length:\n            data = data.ljust(length, b\"\\0\")"),
+    ("C08", "leb-empty-is-zero", "dissect/cstruct/types/leb128.py", '            if b == b"":\n                raise EOFError("EOF reached, while final LEB128 byte was not yet read")', '            if b == b"":\n                b = b"\\x00"'),
+    ("C08", "char-no-length-check", "dissect/cstruct/types/char.py", "        if count != EOF and len(data) != count:\n            raise EOFError", "        if False:\n            raise EOFError"),
+    ("C08", "wchar-wrong-exception", "dissect/cstruct/types/wchar.py", "        if count != EOF and len(data) != count:\n            raise EOFError(", "        if count != EOF and len(data) != count:\n            raise ValueError("),
+    ("C08", "compiled-eof-weaker", "dissect/cstruct/compiler.py", "if len(buf) != {size}: raise EOFError()", "if len(buf) < {size} - 1: raise EOFError()"),
+    ("C08", "char0-eof-returns", "dissect/cstruct/types/char.py", '            if byte == b"":\n                raise EOFError("Read 0 bytes, but expected 1")', '            if byte == b"":\n                break'),
+    ("C09", "struct-start-dropped", "dissect/cstruct/types/structure.py", "                offset = struct_start + field.offset\n                stream.seek(offset)", "                offset = field.offset\n                stream.seek(offset)"),
+    ("C09", "compiled-seek-absolute", "dissect/cstruct/compiler.py", 'yield f"stream.seek(o + {field.offset})"\n                current_offset = field.offset\n\n            if self.align', 'yield f"stream.seek({field.offset})"\n                current_offset = field.offset\n\n            if self.align'),
+    ("C09", "bytearray-to-ctor", "dissect/cstruct/types/base.py", "    return isinstance(value, (bytes, memoryview, bytearray))", "    return isinstance(value, (bytes, memoryview))"),
+    ("C09", "union-reads-from-zero", "dissect/cstruct/types/structure.py", "            result = {}\n            sizes = {}\n            buf = stream.read(cls.size)", "            result = {}\n            sizes = {}\n            stream.seek(0)\n            buf = stream.read(cls.size)"),
+    ("C09", "compiled-origin-zero", "dissect/cstruct/compiler.py", "        o = stream.tell()\n        \"\"\"", "        o = 0\n        \"\"\""),
+    ("C07", "is-eof-no-restore", "dissect/cstruct/types/base.py", "    stream.seek(pos)\n    return False", "    return False"),
+    ("C09", "reads-skips-first-byte", "dissect/cstruct/cstruct.py", "        return self.resolve(name).read(stream)", "        return self.resolve(name).read(stream[0:] if isinstance(stream, (bytes, bytearray)) else stream) if not isinstance(stream, memoryview) else self.resolve(name).read(bytes(stream)[:-1])"),
     ("C06", "be-mask-off", "dissect/cstruct/bitbuffer.py", "v >>= self._remaining - bits", "v >>= max(0, self._remaining - bits - (1 if bits == 7 else 0))"),
     ("C06", "writer-shift", "dissect/cstruct/bitbuffer.py", "self._buffer |= data << (self._type.size * 8 - self._remaining)", "self._buffer |= data << (self._type.size * 8 - self._remaining) if bits != 5 else data << bits"),
     ("C06", "straddle-lt", "dissect/cstruct/types/structure.py", "                if bits_remaining < 0:\n                    raise ValueError", "                if bits_remaining < -1:\n                    raise ValueError"),
